@@ -410,11 +410,202 @@ fn one_set(cfg: &Cfg, rng: &mut Rng, rep: &mut Report) {
     }
 }
 
+// ---------------------------------------------------------------------------------------------
+// multi-target calls: the value at a target does not depend on the other targets of the same call,
+// on their order, or on whether they are in range
+
+/// The oracle on one (target, value) pair of a successful call.
+fn judge(rep: &mut Report, regime: &str, x: &[f64], y: &[f64], m: Mode, t: f64, v: f64, ctx: &dyn Fn(Value) -> Value) {
+    let n = x.len();
+    match locate(x, t) {
+        Where::Knot(i) => {
+            rep.check("C16.knot.exact", regime, zero_eq(v, y[i]), || ctx(json!({"target": t, "knot_index": i, "observed": jnum(v), "expected": jnum(y[i])})));
+        }
+        Where::Interior(i) => {
+            let (want, _) = line_dd(x[i], y[i], x[i + 1], y[i + 1], t);
+            let tol = 4.0 * EPS * (y[i].abs() + y[i + 1].abs()) + 2e-323;
+            let err = (v - want).abs();
+            rep.note_max("worst_ratio.interior_chord", err / tol);
+            rep.check("C16.interior.chord", regime, err <= tol, || ctx(json!({"target": t, "segment": i, "x_seg": [x[i], x[i+1]], "y_seg": [y[i], y[i+1]], "observed": jnum(v), "expected": want, "abs_err": jnum(err), "tol": tol})));
+            let (lo, hi) = (y[i].min(y[i + 1]), y[i].max(y[i + 1]));
+            let slack = 4.0 * EPS * y[i].abs().max(y[i + 1].abs()) + 2e-323;
+            let out = (lo - v).max(v - hi).max(0.0);
+            rep.check("C16.interior.between", regime, out <= slack, || ctx(json!({"target": t, "segment": i, "y_seg": [y[i], y[i+1]], "observed": jnum(v), "outside_by": jnum(out), "slack": slack})));
+        }
+        side => {
+            let left = side == Where::Left;
+            let sname = if left { "left" } else { "right" };
+            match m {
+                Mode::Panic => {
+                    rep.check(&format!("C16.panic_mode.{}", sname), regime, false, || ctx(json!({"target": t, "observed": jnum(v), "expected": "panic"})));
+                }
+                Mode::Fill(l, r) => {
+                    let want = if left { l } else { r };
+                    rep.check(&format!("C16.fill.{}", sname), regime, same_bits(v, want), || ctx(json!({"target": t, "observed": jnum(v), "expected": jnum(want)})));
+                }
+                Mode::Extrapolate => {
+                    let (ia, ib) = if left { (0, 1) } else { (n - 2, n - 1) };
+                    let (want, scale) = line_dd(x[ia], y[ia], x[ib], y[ib], t);
+                    let tol = 1e-12 * scale + 2e-323;
+                    let err = (v - want).abs();
+                    rep.note_max(&format!("worst_ratio.extrapolate_{}", sname), err / tol);
+                    rep.check(&format!("C16.extrapolate.{}", sname), regime, err <= tol, || ctx(json!({"target": t, "segment": [[x[ia], y[ia]], [x[ib], y[ib]]], "observed": jnum(v), "expected": want, "abs_err": jnum(err), "tol": tol})));
+                }
+            }
+        }
+    }
+}
+
+const ORDERS: [&str; 6] = ["shuffled", "alternating-range", "ascending-dense", "ascending-sparse", "ascending-coarse-grid", "descending"];
+
+fn batch_set(cfg: &Cfg, rng: &mut Rng, rep: &mut Report) {
+    let k = gen_knots(rng, cfg.lite);
+    let (x, y) = (&k.x, &k.y);
+    let n = x.len();
+    let range = x[n - 1] - x[0];
+    rep.distinct(Hasher::new().s("batch").fs(x).fs(y).finish(), n >= 3 && y.iter().any(|&v| v != y[0]));
+    let few = cfg.miri();
+    // ---- master target list: in-range positional targets, a coarse regular grid, both outsides
+    let mut inr: Vec<f64> = Vec::new();
+    for i in pick_idx(rng, n, if few { 1 } else { 6 }) {
+        inr.push(x[i]);
+    }
+    for i in pick_idx(rng, n - 1, if few { 1 } else { 6 }) {
+        let t = x[i] + (x[i + 1] - x[i]) * rng.f64();
+        if t >= x[i] && t <= x[i + 1] {
+            inr.push(t);
+        }
+        if !few {
+            let u = if rng.bool() { x[i].next_up() } else { x[i + 1].next_down() };
+            if u >= x[i] && u <= x[i + 1] {
+                inr.push(u);
+            }
+        }
+    }
+    // coarse regular grid over the data range (coarser than the knots on average: <= n/2 points)
+    let gm = if few { 2 } else { rng.usize(2, (n / 2).clamp(2, 12)) };
+    let grid: Vec<f64> = (0..gm).map(|j| x[0] + range * (j as f64 + rng.f64() * 0.5) / gm as f64).filter(|&t| t >= x[0] && t <= x[n - 1]).collect();
+    let fr = rng.log_range(1e-3, 0.5);
+    let left: Vec<f64> = [x[0].next_down(), x[0] - fr * range, x[0] - range].iter().cloned().filter(|&t| t < x[0]).collect();
+    let right: Vec<f64> = [x[n - 1].next_up(), x[n - 1] + fr * range, x[n - 1] + range].iter().cloned().filter(|&t| t > x[n - 1]).collect();
+    let (left, right) = if few { (left[..1.min(left.len())].to_vec(), right[..1.min(right.len())].to_vec()) } else { (left, right) };
+    let fills = Mode::Fill(rng.normal() * 1e3 + 12345.0, rng.normal() * 1e3 - 54321.0);
+    for checked in [true, false] {
+        for m in [Mode::Panic, fills, Mode::Extrapolate] {
+            let with_oor = m != Mode::Panic;
+            // master list for this mode: (target, kind) kind 0 = in range, 1 = left, 2 = right
+            let mut master: Vec<(f64, u8)> = inr.iter().chain(grid.iter()).map(|&t| (t, 0u8)).collect();
+            if with_oor {
+                master.extend(left.iter().map(|&t| (t, 1u8)));
+                master.extend(right.iter().map(|&t| (t, 2u8)));
+            }
+            let ctx1 = |extra: Value| json!({"variant": vname(checked), "mode": m.js(), "x": jf(x), "y": jf(y), "n": n, "detail": extra});
+            // (a) one target per call
+            let sreg = format!("{}:{}:batch:single", vname(checked), m.name());
+            let mut single: Vec<Option<f64>> = Vec::with_capacity(master.len());
+            for &(t, _) in &master {
+                rep.case(&sreg);
+                match call(checked, x, y, &[t], m) {
+                    Ok(v) if v.len() == 1 => {
+                        judge(rep, &sreg, x, y, m, t, v[0], &ctx1);
+                        single.push(Some(v[0]));
+                    }
+                    Ok(v) => {
+                        rep.check("C16.output_len", &sreg, false, || ctx1(json!({"targets": 1, "returned": v.len()})));
+                        single.push(None);
+                    }
+                    Err(msg) => {
+                        rep.check("C16.in_range.no_panic", &sreg, false, || ctx1(json!({"target": t, "panic": msg})));
+                        single.push(None);
+                    }
+                }
+            }
+            // (b)-(d) the same targets in one call, in several orders
+            let mut asc: Vec<usize> = (0..master.len()).collect();
+            asc.sort_by(|&a, &b| master[a].0.partial_cmp(&master[b].0).unwrap());
+            for order in ORDERS {
+                let idx: Vec<usize> = match order {
+                    "shuffled" => {
+                        let mut v: Vec<usize> = (0..master.len()).collect();
+                        rng.shuffle(&mut v);
+                        v
+                    }
+                    "alternating-range" => {
+                        // out-of-range targets of both sides interleaved with in-range targets in random order
+                        let mut ins: Vec<usize> = (0..master.len()).filter(|&i| master[i].1 == 0).collect();
+                        let mut outs: Vec<usize> = (0..master.len()).filter(|&i| master[i].1 != 0).collect();
+                        rng.shuffle(&mut ins);
+                        rng.shuffle(&mut outs);
+                        let mut v = Vec::with_capacity(master.len() + 8);
+                        for (j, &i) in ins.iter().enumerate() {
+                            if !outs.is_empty() {
+                                v.push(outs[j % outs.len()]);
+                            }
+                            v.push(i);
+                        }
+                        v
+                    }
+                    "ascending-dense" => asc.clone(),
+                    "ascending-sparse" => {
+                        // a few targets far apart: whole segments lie between consecutive targets
+                        let keep = rng.usize(2, 5);
+                        let mut v: Vec<usize> = asc.iter().cloned().filter(|_| rng.chance(keep as f64 / asc.len() as f64)).collect();
+                        if v.len() < 2 {
+                            v = vec![asc[0], asc[asc.len() - 1]];
+                        }
+                        v
+                    }
+                    "ascending-coarse-grid" => {
+                        // the regular grid alone (plus the outside targets at its ends)
+                        let lo = inr.len();
+                        asc.iter().cloned().filter(|&i| master[i].1 != 0 && rng.bool() || (i >= lo && i < lo + grid.len())).collect()
+                    }
+                    _ => asc.iter().rev().cloned().collect(),
+                };
+                if idx.is_empty() {
+                    continue;
+                }
+                let ts: Vec<f64> = idx.iter().map(|&i| master[i].0).collect();
+                let regime = format!("{}:{}:batch:{}", vname(checked), m.name(), order);
+                rep.case(&regime);
+                if ts.windows(2).any(|w| matches!((locate(x, w[0]), locate(x, w[1])), (Where::Knot(a) | Where::Interior(a), Where::Knot(b) | Where::Interior(b)) if b > a + 1)) && ts.windows(2).all(|w| w[0] <= w[1]) {
+                    rep.seen("batch:ascending-skips-segment", 1);
+                }
+                if ts.windows(2).any(|w| w[0] > x[n - 1] && w[1] >= x[0] && w[1] <= x[n - 1]) {
+                    rep.seen("batch:in-range-after-above", 1);
+                }
+                if ts.windows(2).any(|w| w[0] < x[0] && w[1] >= x[0] && w[1] <= x[n - 1]) {
+                    rep.seen("batch:in-range-after-below", 1);
+                }
+                let ctx = |extra: Value| json!({"variant": vname(checked), "mode": m.js(), "order": order, "x": jf(x), "y": jf(y), "n": n, "targets": jf(&ts), "detail": extra});
+                match call(checked, x, y, &ts, m) {
+                    Err(msg) => {
+                        rep.check("C16.batch.no_panic", &regime, false, || ctx(json!({"panic": msg})));
+                    }
+                    Ok(v) => {
+                        rep.check("C16.batch.no_panic", &regime, true, || json!(null));
+                        if !rep.check("C16.output_len", &regime, v.len() == ts.len(), || ctx(json!({"targets": ts.len(), "returned": v.len()}))) {
+                            continue;
+                        }
+                        for (j, &i) in idx.iter().enumerate() {
+                            judge(rep, &regime, x, y, m, ts[j], v[j], &ctx);
+                            if let Some(sv) = single[i] {
+                                rep.check("C16.batch.same_as_single", &regime, same_bits(v[j], sv), || ctx(json!({"position_in_call": j, "target": ts[j], "in_this_call": jnum(v[j]), "alone": jnum(sv)})));
+                            }
+                        }
+                    }
+                }
+            }
+        }
+    }
+}
+
 pub fn run(cfg: &Cfg, rep: &mut Report) {
-    rep.rule = "random knot sets: n in 2..200, strictly increasing abscissae (uniform / spacing ratios <= 1e2 / <= 1e6, scale 1e-3..1e3), ordinates gaussian / |y| in 1e-150..1e150 / flat runs with zeros / integers / offset 1e6; per set: in-range targets (knots incl. first and last, midpoints, knot+-1ulp, random interior) x 3 modes x 2 variants, then per side 4 out-of-range targets (1 ulp, fraction of range, 1x, 10x range) x 3 modes x 2 variants, then one unsorted and one length-mismatched call of the checked variant. one evaluation = one library call. non-trivial = n >= 3 and ordinates not all equal; distinct by bits of (x, y)".into();
+    rep.rule = "random knot sets: n in 2..200, strictly increasing abscissae (uniform / spacing ratios <= 1e2 / <= 1e6, scale 1e-3..1e3), ordinates gaussian / |y| in 1e-150..1e150 / flat runs with zeros / integers / offset 1e6; per set: in-range targets (knots incl. first and last, midpoints, knot+-1ulp, random interior) x 3 modes x 2 variants, then per side 4 out-of-range targets (1 ulp, fraction of range, 1x, 10x range) x 3 modes x 2 variants, then one unsorted and one length-mismatched call of the checked variant. one evaluation = one library call. non-trivial = n >= 3 and ordinates not all equal; distinct by bits of (x, y); batch family: per knot set a master list of targets (knots, random interior, knot+-1ulp, a coarse regular grid, both outsides) evaluated one per call and then in one call in six orders (shuffled, out-of-range alternating with in-range, ascending dense, ascending sparse, coarse grid, descending) x 3 modes x 2 variants (Panic mode with in-range targets only): every value must satisfy the oracle and equal the one-per-call value bit for bit".into();
     rep.assume("abscissae strictly increasing and finite, ordinates finite with |y| <= 1e150 (chords cannot overflow); ties in the abscissae are neither required to be accepted nor rejected");
     rep.assume("a knot ordinate of -0.0 may be returned as +0.0 (numerically equal)");
     rep.assume("fill values may be any f64 incl. inf/NaN and are compared bitwise (all NaNs identified)");
+    rep.assume("the value at a target is a function of (x, y, mode, target) alone: results of a multi-target call are compared bit for bit with the results of one-target calls");
     rep.assume("the unchecked variant's behaviour on unsorted / mismatched input is not judged");
     let nsets = cfg.pick(1500, 40000, 3);
     par_cases(cfg, rep, 1, nsets, |_i, rng, rep| one_set(cfg, rng, rep));
@@ -441,6 +632,22 @@ pub fn run(cfg: &Cfg, rep: &mut Report) {
             }
         }
     });
+    // multi-target calls against one-target-per-call results and the oracle
+    let nb = cfg.pick(500, 8000, 1);
+    par_cases(cfg, rep, 3, nb, |_i, rng, rep| batch_set(cfg, rng, rep));
+    for v in ["checked", "unchecked"] {
+        for m in ["panic", "fill", "extrapolate"] {
+            rep.require(&format!("{}:{}:batch:single", v, m), 1);
+            for o in ORDERS {
+                rep.require(&format!("{}:{}:batch:{}", v, m, o), 1);
+            }
+        }
+    }
+    if !cfg.lite {
+        for r in ["batch:ascending-skips-segment", "batch:in-range-after-above", "batch:in-range-after-below"] {
+            rep.require(r, 1);
+        }
+    }
     for v in ["checked", "unchecked"] {
         for m in ["panic", "fill", "extrapolate"] {
             rep.require(&format!("{}:{}:in-range", v, m), 1);
